@@ -1,0 +1,503 @@
+//! Verification hooks (compiled only with `--cfg john_yu_sm9_core_verif`).
+//!
+//! Add-only instrumentation for the /verif machinery: a byte-level dispatcher that lets a
+//! replay driver call crate-private functions with exact stored representations
+//! (raw limbs, Montgomery form) and read back exact stored results.  Nothing here is used
+//! by the library itself.
+//!
+//! Encodings: U256 = 32 bytes big-endian of the limb value (no reduction);
+//! Fq/Fr = stored (Montgomery) limbs as U256; Fq2 = c0 || c1; Fq4 = c0 || c1;
+//! Fq12 = c0 || c1 || c2; G1 = x || y || z; G2 = x || y || z; bool / small ints = 1..8 bytes BE.
+//! Option results are prefixed by a one-byte value 0 (None) / 1 (Some).
+#![allow(clippy::all)]
+#![allow(missing_docs)]
+extern crate std;
+use std::vec::Vec;
+
+use crate::fields::{FieldElement, Fq, Fq12, Fq2, Fq4, Fr};
+use crate::groups::{AffineG, GroupElement, GroupParams, G, G1, G2};
+use crate::u256::U256;
+use crate::u512::U512;
+use crate::{One, Zero};
+
+pub type Out = Vec<Vec<u8>>;
+
+pub fn u256(b: &[u8]) -> U256 {
+    assert!(b.len() == 32, "u256 needs 32 bytes");
+    let mut d = [0u64; 4];
+    for i in 0..4 {
+        let mut w = [0u8; 8];
+        w.copy_from_slice(&b[(3 - i) * 8..(3 - i) * 8 + 8]);
+        d[i] = u64::from_be_bytes(w);
+    }
+    U256::from(d)
+}
+pub fn u256_out(a: &U256) -> Vec<u8> {
+    let mut v = Vec::with_capacity(32);
+    for i in (0..4).rev() {
+        v.extend_from_slice(&a[i].to_be_bytes());
+    }
+    v
+}
+pub fn u512(b: &[u8]) -> U512 {
+    assert!(b.len() == 64, "u512 needs 64 bytes");
+    let mut d = [0u64; 8];
+    for i in 0..8 {
+        let mut w = [0u8; 8];
+        w.copy_from_slice(&b[(7 - i) * 8..(7 - i) * 8 + 8]);
+        d[i] = u64::from_be_bytes(w);
+    }
+    U512::from(d)
+}
+pub fn u512_out(a: &U512) -> Vec<u8> {
+    let mut v = Vec::with_capacity(64);
+    for i in (0..8).rev() {
+        v.extend_from_slice(&a[i].to_be_bytes());
+    }
+    v
+}
+pub fn fq(b: &[u8]) -> Fq {
+    Fq(u256(b))
+}
+pub fn fr(b: &[u8]) -> Fr {
+    Fr(u256(b))
+}
+pub fn fq_out(a: &Fq) -> Vec<u8> {
+    u256_out(&a.0)
+}
+pub fn fr_out(a: &Fr) -> Vec<u8> {
+    u256_out(&a.0)
+}
+pub fn fq2(b: &[u8]) -> Fq2 {
+    assert!(b.len() == 64);
+    Fq2::new(fq(&b[..32]), fq(&b[32..]))
+}
+pub fn fq2_out(a: &Fq2) -> Vec<u8> {
+    let mut v = fq_out(&a.c0);
+    v.extend(fq_out(&a.c1));
+    v
+}
+pub fn fq4(b: &[u8]) -> Fq4 {
+    assert!(b.len() == 128);
+    Fq4::new(fq2(&b[..64]), fq2(&b[64..]))
+}
+pub fn fq4_out(a: &Fq4) -> Vec<u8> {
+    let mut v = fq2_out(&a.c0);
+    v.extend(fq2_out(&a.c1));
+    v
+}
+pub fn fq12(b: &[u8]) -> Fq12 {
+    assert!(b.len() == 384);
+    Fq12::new(fq4(&b[..128]), fq4(&b[128..256]), fq4(&b[256..]))
+}
+pub fn fq12_out(a: &Fq12) -> Vec<u8> {
+    let mut v = fq4_out(&a.c0);
+    v.extend(fq4_out(&a.c1));
+    v.extend(fq4_out(&a.c2));
+    v
+}
+pub fn g1(b: &[u8]) -> G1 {
+    assert!(b.len() == 96);
+    G1::new(fq(&b[..32]), fq(&b[32..64]), fq(&b[64..]))
+}
+pub fn g1_out(a: &G1) -> Vec<u8> {
+    let mut v = fq_out(&a.x);
+    v.extend(fq_out(&a.y));
+    v.extend(fq_out(&a.z));
+    v
+}
+pub fn g2(b: &[u8]) -> G2 {
+    assert!(b.len() == 192);
+    G2::new(fq2(&b[..64]), fq2(&b[64..128]), fq2(&b[128..]))
+}
+pub fn g2_out(a: &G2) -> Vec<u8> {
+    let mut v = fq2_out(&a.x);
+    v.extend(fq2_out(&a.y));
+    v.extend(fq2_out(&a.z));
+    v
+}
+pub fn num(b: &[u8]) -> usize {
+    let mut n = 0usize;
+    for x in b {
+        n = (n << 8) | (*x as usize);
+    }
+    n
+}
+pub fn u64_of(b: &[u8]) -> u64 {
+    let mut n = 0u64;
+    for x in b {
+        n = (n << 8) | (*x as u64);
+    }
+    n
+}
+pub fn bool_out(b: bool) -> Vec<u8> {
+    std::vec![b as u8]
+}
+pub fn opt<T>(o: Option<T>, f: impl Fn(&T) -> Vec<u8>) -> Out {
+    match o {
+        None => std::vec![std::vec![0u8]],
+        Some(v) => std::vec![std::vec![1u8], f(&v)],
+    }
+}
+
+macro_rules! fp_hooks {
+    ($F:ident, $conv:ident, $out:ident, $name:expr, $a:expr) => {{
+        let a = $a;
+        let n: &str = $name;
+        match n {
+            "new" => return Some(opt($F::new(u256(&a[0])), $out)),
+            "new_mul_factor" => return Some(std::vec![$out(&$F::new_mul_factor(u256(&a[0])))]),
+            "from_slice" => return Some(opt($F::from_slice(&a[0]), $out)),
+            "to_slice" => return Some(std::vec![$conv(&a[0]).to_slice().to_vec()]),
+            "interpret" => {
+                let mut b = [0u8; 64];
+                b.copy_from_slice(&a[0]);
+                return Some(std::vec![$out(&$F::interpret(&b))]);
+            }
+            "from_str" => match core::str::from_utf8(&a[0]) {
+                Ok(s) => return Some(opt($F::from_str(s), $out)),
+                Err(_) => return Some(std::vec![std::vec![2u8]]),
+            },
+            "into_u256" => return Some(std::vec![u256_out(&U256::from($conv(&a[0])))]),
+            "modulus" => return Some(std::vec![u256_out(&$F::modulus())]),
+            "set_bit" => {
+                let mut x = $conv(&a[0]);
+                x.set_bit(num(&a[1]), a[2][0] != 0);
+                return Some(std::vec![$out(&x)]);
+            }
+            "add_inplace" => return Some(std::vec![$out(&$conv(&a[0]).add_inplace(&$conv(&a[1])))]),
+            "sub_inplace" => return Some(std::vec![$out(&$conv(&a[0]).sub_inplace(&$conv(&a[1])))]),
+            "mul_inplace" => return Some(std::vec![$out(&$conv(&a[0]).mul_inplace(&$conv(&a[1])))]),
+            "neg_inplace" => return Some(std::vec![$out(&$conv(&a[0]).neg_inplace())]),
+            "zero" => return Some(std::vec![$out(&$F::zero())]),
+            "one" => return Some(std::vec![$out(&$F::one())]),
+            "is_zero" => return Some(std::vec![bool_out($conv(&a[0]).is_zero())]),
+            "is_one" => return Some(std::vec![bool_out($conv(&a[0]).is_one())]),
+            "eq" => return Some(std::vec![bool_out($conv(&a[0]) == $conv(&a[1]))]),
+            "double" => return Some(std::vec![$out(&$conv(&a[0]).double())]),
+            "triple" => return Some(std::vec![$out(&$conv(&a[0]).triple())]),
+            "squared" => return Some(std::vec![$out(&$conv(&a[0]).squared())]),
+            "inverse" => return Some(opt($conv(&a[0]).inverse(), $out)),
+            "pow" => return Some(std::vec![$out(&$conv(&a[0]).pow(u256(&a[1])))]),
+            // operator forms: every form must agree with *_inplace
+            "op_add" => {
+                let (x, y) = ($conv(&a[0]), $conv(&a[1]));
+                let mut z1 = x;
+                z1 += y;
+                let mut z2 = x;
+                z2 += &y;
+                return Some(std::vec![$out(&(x + y)), $out(&(&x + y)), $out(&(x + &y)), $out(&(&x + &y)), $out(&z1), $out(&z2)]);
+            }
+            "op_sub" => {
+                let (x, y) = ($conv(&a[0]), $conv(&a[1]));
+                let mut z1 = x;
+                z1 -= y;
+                let mut z2 = x;
+                z2 -= &y;
+                return Some(std::vec![$out(&(x - y)), $out(&(&x - y)), $out(&(x - &y)), $out(&(&x - &y)), $out(&z1), $out(&z2)]);
+            }
+            "op_mul" => {
+                let (x, y) = ($conv(&a[0]), $conv(&a[1]));
+                let mut z1 = x;
+                z1 *= y;
+                let mut z2 = x;
+                z2 *= &y;
+                return Some(std::vec![$out(&(x * y)), $out(&(&x * y)), $out(&(x * &y)), $out(&(&x * &y)), $out(&z1), $out(&z2)]);
+            }
+            "op_neg" => {
+                let x = $conv(&a[0]);
+                return Some(std::vec![$out(&(-x)), $out(&(-&x))]);
+            }
+            _ => {}
+        }
+    }};
+}
+
+macro_rules! ext_hooks {
+    ($F:ident, $conv:ident, $out:ident, $name:expr, $a:expr) => {{
+        let a = $a;
+        let n: &str = $name;
+        match n {
+            "add" => return Some(std::vec![$out(&($conv(&a[0]) + $conv(&a[1])))]),
+            "sub" => return Some(std::vec![$out(&($conv(&a[0]) - $conv(&a[1])))]),
+            "mul" => return Some(std::vec![$out(&($conv(&a[0]) * $conv(&a[1])))]),
+            "neg" => return Some(std::vec![$out(&(-$conv(&a[0])))]),
+            "zero" => return Some(std::vec![$out(&$F::zero())]),
+            "one" => return Some(std::vec![$out(&$F::one())]),
+            "is_zero" => return Some(std::vec![bool_out($conv(&a[0]).is_zero())]),
+            "eq" => return Some(std::vec![bool_out($conv(&a[0]) == $conv(&a[1]))]),
+            "double" => return Some(std::vec![$out(&$conv(&a[0]).double())]),
+            "triple" => return Some(std::vec![$out(&$conv(&a[0]).triple())]),
+            "squared" => return Some(std::vec![$out(&$conv(&a[0]).squared())]),
+            "inverse" => return Some(opt($conv(&a[0]).inverse(), $out)),
+            "mul_by_nonresidue" => return Some(std::vec![$out(&$conv(&a[0]).mul_by_nonresidue())]),
+            "to_slice" => return Some(std::vec![$conv(&a[0]).to_slice().to_vec()]),
+            "op_mul" => {
+                let (x, y) = ($conv(&a[0]), $conv(&a[1]));
+                let mut z1 = x;
+                z1 *= y;
+                let mut z2 = x;
+                z2 *= &y;
+                return Some(std::vec![$out(&(x * y)), $out(&(&x * y)), $out(&(x * &y)), $out(&(&x * &y)), $out(&z1), $out(&z2)]);
+            }
+            "op_add" => {
+                let (x, y) = ($conv(&a[0]), $conv(&a[1]));
+                let mut z1 = x;
+                z1 += y;
+                let mut z2 = x;
+                z2 += &y;
+                return Some(std::vec![$out(&(x + y)), $out(&(&x + y)), $out(&(x + &y)), $out(&(&x + &y)), $out(&z1), $out(&z2)]);
+            }
+            "op_sub" => {
+                let (x, y) = ($conv(&a[0]), $conv(&a[1]));
+                let mut z1 = x;
+                z1 -= y;
+                let mut z2 = x;
+                z2 -= &y;
+                return Some(std::vec![$out(&(x - y)), $out(&(&x - y)), $out(&(x - &y)), $out(&(&x - &y)), $out(&z1), $out(&z2)]);
+            }
+            "op_neg" => {
+                let x = $conv(&a[0]);
+                return Some(std::vec![$out(&(-x)), $out(&(-&x))]);
+            }
+            _ => {}
+        }
+    }};
+}
+
+fn group_hooks<P: GroupParams>(
+    name: &str,
+    a: &[Vec<u8>],
+    conv: impl Fn(&[u8]) -> G<P>,
+    out: impl Fn(&G<P>) -> Vec<u8>,
+    base: impl Fn(&[u8]) -> P::Base,
+    base_out: impl Fn(&P::Base) -> Vec<u8>,
+) -> Option<Out> {
+    Some(match name {
+        "add" => std::vec![out(&(conv(&a[0]) + conv(&a[1])))],
+        "add_ref" => std::vec![out(&(conv(&a[0]) + &conv(&a[1]))), out(&(&conv(&a[0]) + conv(&a[1])))],
+        "add_assign" => {
+            let mut x = conv(&a[0]);
+            x += conv(&a[1]);
+            let mut y = conv(&a[0]);
+            y += &conv(&a[1]);
+            std::vec![out(&x), out(&y)]
+        }
+        "sub" => std::vec![out(&(conv(&a[0]) - conv(&a[1])))],
+        "neg" => std::vec![out(&(-conv(&a[0])))],
+        "double" => std::vec![out(&conv(&a[0]).double())],
+        "mul" => std::vec![out(&(conv(&a[0]) * fr(&a[1])))],
+        "eq" => std::vec![bool_out(conv(&a[0]) == conv(&a[1]))],
+        "is_zero" => std::vec![bool_out(conv(&a[0]).is_zero())],
+        "zero" => std::vec![out(&G::<P>::zero())],
+        "one" => std::vec![out(&G::<P>::one())],
+        "coeff_b" => std::vec![base_out(&P::coeff_b())],
+        "check_order" => std::vec![bool_out(P::check_order())],
+        "to_affine" => match conv(&a[0]).to_affine() {
+            None => std::vec![std::vec![0u8]],
+            Some(p) => std::vec![std::vec![1u8], base_out(p.x()), base_out(p.y())],
+        },
+        "affine_new" => match AffineG::<P>::new(base(&a[0]), base(&a[1])) {
+            Ok(p) => std::vec![std::vec![1u8], out(&p.to_jacobian())],
+            Err(crate::groups::Error::NotOnCurve) => std::vec![std::vec![0u8], std::vec![1u8]],
+            Err(crate::groups::Error::NotInSubgroup) => std::vec![std::vec![0u8], std::vec![2u8]],
+        },
+        _ => return None,
+    })
+}
+
+/// Dispatcher: `None` when the name is unknown.
+pub fn call(name: &str, a: &[Vec<u8>]) -> Option<Out> {
+    if let Some(n) = name.strip_prefix("u256::") {
+        let m = |i: usize| u256(&a[i]);
+        return Some(match n {
+            "add" => {
+                let mut x = m(0);
+                x.add(&m(1), &m(2));
+                std::vec![u256_out(&x)]
+            }
+            "sub" => {
+                let mut x = m(0);
+                x.sub(&m(1), &m(2));
+                std::vec![u256_out(&x)]
+            }
+            "neg" => {
+                let mut x = m(0);
+                x.neg(&m(1));
+                std::vec![u256_out(&x)]
+            }
+            "mul2" => {
+                let mut x = m(0);
+                x.mul2(&m(1));
+                std::vec![u256_out(&x)]
+            }
+            "div2" => {
+                let mut x = m(0);
+                x.div2(&m(1));
+                std::vec![u256_out(&x)]
+            }
+            "mul" => {
+                let mut x = m(0);
+                x.mul(&m(1), &m(2), u64_of(&a[3]));
+                std::vec![u256_out(&x)]
+            }
+            "square" => {
+                let mut x = m(0);
+                x.square(&m(1), u64_of(&a[2]));
+                std::vec![u256_out(&x)]
+            }
+            "invert" => {
+                let mut x = m(0);
+                x.invert(&m(1), &m(2));
+                std::vec![u256_out(&x)]
+            }
+            "subtract_modulus_with_carry" => {
+                let mut x = m(0);
+                x.subtract_modulus_with_carry(&m(1), a[2][0] != 0);
+                std::vec![u256_out(&x)]
+            }
+            "add_carry" => {
+                let mut x = m(0);
+                x.add_carry(&m(1));
+                std::vec![u256_out(&x)]
+            }
+            "set_bit" => {
+                let mut x = m(0);
+                let r = x.set_bit(num(&a[1]), a[2][0] != 0);
+                std::vec![u256_out(&x), bool_out(r)]
+            }
+            "get_bit" => match m(0).get_bit(num(&a[1])) {
+                None => std::vec![std::vec![0u8]],
+                Some(b) => std::vec![std::vec![1u8], bool_out(b)],
+            },
+            "from_slice" => match U256::from_slice(&a[0]) {
+                Ok(x) => std::vec![std::vec![1u8], u256_out(&x)],
+                Err(_) => std::vec![std::vec![0u8]],
+            },
+            "to_big_endian" => {
+                let mut buf = std::vec![0xAAu8; num(&a[1])];
+                match m(0).to_big_endian(&mut buf) {
+                    Ok(()) => std::vec![std::vec![1u8], buf],
+                    Err(_) => std::vec![std::vec![0u8], buf],
+                }
+            }
+            "bits_without_leading_zeros" => {
+                std::vec![m(0).bits_without_leading_zeros().map(|b| b as u8).collect()]
+            }
+            "bits" => std::vec![m(0).bits().map(|b| b as u8).collect()],
+            "is_zero" => std::vec![bool_out(m(0).is_zero())],
+            "is_one" => std::vec![bool_out(m(0).is_one())],
+            "is_even" => std::vec![bool_out(m(0).is_even())],
+            "cmp" => std::vec![std::vec![match m(0).cmp(&m(1)) {
+                core::cmp::Ordering::Less => 0u8,
+                core::cmp::Ordering::Equal => 1,
+                core::cmp::Ordering::Greater => 2,
+            }]],
+            _ => return None,
+        });
+    }
+    if let Some(n) = name.strip_prefix("u512::") {
+        return Some(match n {
+            "divrem" => {
+                let (q, r) = u512(&a[0]).divrem(&u256(&a[1]));
+                match q {
+                    None => std::vec![std::vec![0u8], u256_out(&r)],
+                    Some(q) => std::vec![std::vec![1u8], u256_out(&r), u256_out(&q)],
+                }
+            }
+            "new" => std::vec![u512_out(&U512::new(&u256(&a[0]), &u256(&a[1]), &u256(&a[2])))],
+            "from_slice" => match U512::from_slice(&a[0]) {
+                Ok(x) => std::vec![std::vec![1u8], u512_out(&x)],
+                Err(_) => std::vec![std::vec![0u8]],
+            },
+            "bit_length" => std::vec![(u512(&a[0]).bit_length() as u64).to_be_bytes().to_vec()],
+            "get_bit" => match u512(&a[0]).get_bit(num(&a[1])) {
+                None => std::vec![std::vec![0u8]],
+                Some(b) => std::vec![std::vec![1u8], bool_out(b)],
+            },
+            _ => return None,
+        });
+    }
+    if let Some(n) = name.strip_prefix("fq::") {
+        fp_hooks!(Fq, fq, fq_out, n, a);
+        return Some(match n {
+            "sqrt" => opt(fq(&a[0]).sqrt(), fq_out),
+            "div2" => std::vec![fq_out(&fq(&a[0]).div2())],
+            "sum_of_products" => {
+                let t = a.len() / 2;
+                let x: Vec<Fq> = a[..t].iter().map(|b| fq(b)).collect();
+                let y: Vec<Fq> = a[t..].iter().map(|b| fq(b)).collect();
+                let r = match t {
+                    1 => Fq::sum_of_products(&[x[0]], &[y[0]]),
+                    2 => Fq::sum_of_products(&[x[0], x[1]], &[y[0], y[1]]),
+                    3 => Fq::sum_of_products(&[x[0], x[1], x[2]], &[y[0], y[1], y[2]]),
+                    4 => Fq::sum_of_products(&[x[0], x[1], x[2], x[3]], &[y[0], y[1], y[2], y[3]]),
+                    8 => Fq::sum_of_products(
+                        &[x[0], x[1], x[2], x[3], x[4], x[5], x[6], x[7]],
+                        &[y[0], y[1], y[2], y[3], y[4], y[5], y[6], y[7]],
+                    ),
+                    _ => return None,
+                };
+                std::vec![fq_out(&r)]
+            }
+            _ => return None,
+        });
+    }
+    if let Some(n) = name.strip_prefix("fr::") {
+        fp_hooks!(Fr, fr, fr_out, n, a);
+        return Some(match n {
+            "from_hash" => opt(Fr::from_hash(&a[0]), fr_out),
+            _ => return None,
+        });
+    }
+    if let Some(n) = name.strip_prefix("fq2::") {
+        ext_hooks!(Fq2, fq2, fq2_out, n, a);
+        return Some(match n {
+            "mul_inplace" => std::vec![fq2_out(&fq2(&a[0]).mul_inplace(&fq2(&a[1])))],
+            "scale" => std::vec![fq2_out(&fq2(&a[0]).scale(&fq(&a[1])))],
+            "unitary_inverse" => std::vec![fq2_out(&fq2(&a[0]).unitary_inverse())],
+            "div2" => std::vec![fq2_out(&fq2(&a[0]).div2())],
+            "sqrt" => opt(fq2(&a[0]).sqrt(), fq2_out),
+            "from_slice" => match Fq2::from_slice(&a[0]) {
+                Ok(x) => std::vec![std::vec![1u8], fq2_out(&x)],
+                Err(_) => std::vec![std::vec![0u8]],
+            },
+            "i" => std::vec![fq2_out(&Fq2::i())],
+            _ => return None,
+        });
+    }
+    if let Some(n) = name.strip_prefix("fq4::") {
+        ext_hooks!(Fq4, fq4, fq4_out, n, a);
+        return Some(match n {
+            "mul_inplace" => std::vec![fq4_out(&fq4(&a[0]).mul_inplace(&fq4(&a[1])))],
+            "mul_1" => std::vec![fq4_out(&fq4(&a[0]).mul_1(&fq4(&a[1])))],
+            "scale" => std::vec![fq4_out(&fq4(&a[0]).scale(&fq2(&a[1])))],
+            "scale_fq" => std::vec![fq4_out(&fq4(&a[0]).scale_fq(&fq(&a[1])))],
+            "unitary_inverse" => std::vec![fq4_out(&fq4(&a[0]).unitary_inverse())],
+            "frobenius_map" => std::vec![fq4_out(&fq4(&a[0]).frobenius_map(num(&a[1])))],
+            _ => return None,
+        });
+    }
+    if let Some(n) = name.strip_prefix("fq12::") {
+        ext_hooks!(Fq12, fq12, fq12_out, n, a);
+        return Some(match n {
+            "mul_015" => std::vec![fq12_out(&fq12(&a[0]).mul_015(&fq12(&a[1])))],
+            "scale" => std::vec![fq12_out(&fq12(&a[0]).scale(&fq4(&a[1])))],
+            "frobenius_map" => std::vec![fq12_out(&fq12(&a[0]).frobenius_map(num(&a[1])))],
+            "pow_fr" => std::vec![fq12_out(&fq12(&a[0]).pow(fr(&a[1])))],
+            "final_exponentiation" => opt(fq12(&a[0]).final_exponentiation(), fq12_out),
+            "final_exp" => opt(fq12(&a[0]).final_exp(), fq12_out),
+            _ => return None,
+        });
+    }
+    if let Some(n) = name.strip_prefix("g1::") {
+        return group_hooks::<crate::groups::G1Params>(n, a, g1, g1_out, fq, fq_out);
+    }
+    if let Some(n) = name.strip_prefix("g2::") {
+        return group_hooks::<crate::groups::G2Params>(n, a, g2, g2_out, fq2, fq2_out);
+    }
+    if name.starts_with("pairings::") {
+        return crate::pairings::verif_hooks::call(name, a);
+    }
+    None
+}
